@@ -185,18 +185,36 @@ def replay_global(job):
     """the same history with the configuration installed as the GLOBAL one and the palettes created as synced palettes:
     synced palettes (and ak.color.global_palette) must reflect the current state after every step, and after a NEW
     global configuration made of the same initial items is installed (histories without direct registrations)"""
-    from ak import color
-    saved = getattr(color, '_GLOBAL_COLORS_CONF', None)        # None: the global configuration was never asked for
-    mine = []
-    try:
-        return _replay_global(job, mine)
-    finally:
-        # housekeeping of the worker process (not part of what is checked): forget this behaviour's synced palettes
-        reg = getattr(color, '_GSYNCED_PALETTES', None)
-        if isinstance(reg, dict):
-            for cls in mine:
-                reg.pop(cls, None)
-        color.set_global_colors_config(saved)
+    # synced palettes are process-wide singletons and the public interface has no way to retire them, so every behaviour
+    # is replayed in a process of its own (a fork of this worker) - nothing of it is left behind
+    import os
+    r, w = os.pipe()
+    pid = os.fork()
+    if pid == 0:
+        try:
+            os.close(r)
+            try:
+                res = _replay_global(job, [])
+            except Exception as ex:          # noqa
+                from vcheck import real_code_failure
+                msg = real_code_failure(ex)
+                res = (msg, []) if msg else ('machinery: %s: %s' % (type(ex).__name__, str(ex)[:200]), ['machinery'])
+            os.write(w, json.dumps(res).encode())
+        finally:
+            os._exit(0)
+    os.close(w)
+    chunks = []
+    while True:
+        b = os.read(r, 65536)
+        if not b:
+            break
+        chunks.append(b)
+    os.close(r)
+    os.waitpid(pid, 0)
+    if not chunks:
+        return 'machinery: the replay process gave no result', ['machinery']
+    prob, tags = json.loads(b''.join(chunks).decode())
+    return prob, tags
 
 
 def _replay_global(job, mine):
@@ -300,9 +318,23 @@ def run(ctx):
     for job, (prob, tags) in zip(jobs, res):
         if prob:
             ctx.violation({'history': job[0], 'no_color': job[1], 'nested': job[2]}, prob, tags)
-    res = pmap(replay_global, jobs)
-    for job, (prob, tags) in zip(jobs, res):
+    # the global / synced replay forks one process per behaviour: the behaviours with palette steps, up to a bound
+    gjobs = [j for j in jobs if any(st['kind'] == 'palette' for st in j[0])]
+    gmax = 8000 if ctx.quick else 60000
+    if len(gjobs) > gmax:
+        # those with two or more palette steps and no direct registration first (a new global configuration is installed
+        # at the end of these), then an even sample of the rest
+        first = [j for j in gjobs if sum(1 for st in j[0] if st['kind'] == 'palette') >= 2 and not any(st['kind'] == 'direct' for st in j[0])]
+        rest = [j for j in gjobs if not (sum(1 for st in j[0] if st['kind'] == 'palette') >= 2 and not any(st['kind'] == 'direct' for st in j[0]))]
+        first = first[::max(1, len(first) // (gmax // 2))][:gmax // 2]
+        rest = rest[::max(1, len(rest) // (gmax - len(first)))][:gmax - len(first)]
+        gjobs = first + rest
+    ctx.extra['behaviours_replayed_through_the_global_configuration'] = len(gjobs)
+    res = pmap(replay_global, gjobs)
+    for job, (prob, tags) in zip(gjobs, res):
         if prob:
+            if 'machinery' in tags:
+                raise Machinery(prob)
             ctx.violation({'history': job[0], 'no_color': job[1], 'nested': job[2], 'global': True}, prob, tags)
     bad = json.loads(json.dumps(hists[n_exh // 2]))
     for st in bad:
